@@ -8,7 +8,33 @@ use clap::error::ErrorKind;
 use std::ffi::OsString;
 
 pub fn targeted(rng: &mut Rng, c: &mut CmdSpec) {
-    match rng.below(6) {
+    match rng.below(7) {
+        6 => {
+            // the empty string as a name: a subcommand alias, a possible value, an alias of one
+            if !c.subs.is_empty() && rng.coin() {
+                let i = rng.below(c.subs.len());
+                if !c.subs.iter().any(|s| s.name.is_empty() || s.aliases.iter().any(|(a, _)| a.is_empty())) {
+                    c.subs[i].aliases.push((String::new(), rng.coin()));
+                }
+            }
+            for a in c.args.iter_mut() {
+                if a.takes_values() && rng.coin() {
+                    let mut pvs = vec![
+                        Pv { name: String::new(), aliases: vec![], hide: false, help: None },
+                        Pv { name: "auto".into(), aliases: vec![], hide: false, help: None },
+                    ];
+                    if rng.coin() {
+                        pvs[1].aliases.push(String::new());
+                        pvs.remove(0);
+                    }
+                    a.vp = Some(Vp::Possible(pvs));
+                    a.defaults.clear();
+                    a.default_missing.clear();
+                    a.default_ifs.clear();
+                    a.env = None;
+                }
+            }
+        }
         0 => {
             // args_conflicts_with_subcommands x group x flag subcommand
             c.set(Setting::ArgsConflictsWithSubcommands);
